@@ -41,6 +41,8 @@ type G struct {
 	label int
 	Stats map[string]int
 	Ovs   []ref.FunSig // registered overloads of "ov" (C05)
+	// OnlyMutations (when set) restricts Mutate to these kinds
+	OnlyMutations []string
 }
 
 func NewG(t *rapid.T, o ProgOpt) *G {
